@@ -151,7 +151,7 @@ pub fn build_vector_source(rng: &mut Rng, kind: usize, dir: &Path, _max_tiles: u
 		let mut names = vec![];
 		for (i, s) in sets.iter().enumerate() {
 			known.extend(s.blobs.keys().cloned());
-			sources.add(&format!("v{i}.x"), Src::Mem { ts: s.tileset(&format!("v{i}")), pyramid: None, default_stream: rng.chance(0.3) });
+			sources.add(&format!("v{i}.x"), Src::Mem { ts: s.tileset(&format!("v{i}")), pyramid: None, default_stream: rng.chance(0.3), yields: if rng.chance(0.4) { rng.range(1, 3) as u32 } else { 0 }, open_yields: if rng.chance(0.3) { rng.range(1, 4) as u32 } else { 0 } });
 			names.push(format!("from_container filename=v{i}.x"));
 		}
 		let vpl = format!("from_vectortiles_merged [ {} ]", names.join(", "));
@@ -163,7 +163,7 @@ pub fn build_vector_source(rng: &mut Rng, kind: usize, dir: &Path, _max_tiles: u
 		let csv = gen_csv(rng);
 		std::fs::write(dir.join("data.csv"), &csv.text).map_err(|e| e.to_string())?;
 		let mut sources = Sources::new();
-		sources.add("v0.x", Src::Mem { ts: sets[0].tileset("v0"), pyramid: None, default_stream: rng.chance(0.3) });
+		sources.add("v0.x", Src::Mem { ts: sets[0].tileset("v0"), pyramid: None, default_stream: rng.chance(0.3), yields: if rng.chance(0.4) { rng.range(1, 3) as u32 } else { 0 }, open_yields: if rng.chance(0.3) { rng.range(1, 4) as u32 } else { 0 } });
 		let a = UpdateArgs { layer: "roads".into(), id_field_tiles: "osm_id".into(), replace: rng.bool(), remove_non_matching: rng.bool(), include_id: rng.bool() };
 		let vpl = update_vpl("v0.x", &a);
 		let (r, logs) = guard::block_on(pipe::build(&vpl, &sources, Some(dir))).map_err(|e| format!("{vpl}: {e:#}"))?;
